@@ -65,3 +65,14 @@ Print Assumptions C17_load_wf_unrestricted_refuted.
 Theorem C17_load_overflow : stmt_load_overflow.
 Proof. exact load_overflow. Qed.
 Print Assumptions C17_load_overflow.
+
+(** the depot clause: "the given depots (or one unlimited depot per location) with their total and per-type capacities
+    plus an overflow depot": the depot table is the input's depots in order followed by the overflow depot; given depots
+    keep location, total and per-type capacity (a per-type figure capped by the total, a type without figure may use the
+    whole depot, an unlisted type never starts there); without depots there is one depot per location, open to every type
+    and at least as large as the largest fleet the instance can need; both nodes of every depot carry its index; the
+    overflow depot is nowhere. Non-vacuity: LoadFacts2.load_depots_instG / load_depots_instU. *)
+From RS Require Import LoadStmts2 LoadFacts2.
+Theorem C17_load_depots : stmt_load_depots.
+Proof. exact load_depots. Qed.
+Print Assumptions C17_load_depots.
